@@ -16,69 +16,12 @@
 (* the model: every register is the textbook encryption of its ghost          *)
 (* plaintext under its ghost nonce; decryption by the L-function returns the  *)
 (* ghost plaintext; the nonce is recovered by the unique N-th root.           *)
-EXTENDS Integers, Sequences, FiniteSets
+EXTENDS HomEncMath
 
-CONSTANTS P, Q,            \* Paillier primes (N = P*Q)
-          G,               \* ElGamal: prime order of the toy group
-          Scheme,          \* "paillier" or "elgamal": which machine Next runs
+CONSTANTS Scheme,          \* "paillier" or "elgamal": which machine Next runs
           Regs, MaxOps,
           Msgs, Nonces, Scalars, Shifts,       \* Paillier programme alphabet
           EKeys, EMsgs, ENonces, EScalars      \* ElGamal programme alphabet
-
-Abs(x) == IF x < 0 THEN 0 - x ELSE x
-N == P * Q
-N2 == N * N
-
---------------------------------------------------------------------------
-(* arithmetic modulo m < 2^30 without overflow *)
-RECURSIVE MulD(_, _, _)
-MulD(a, b, m) == IF b = 0 THEN 0
-                 ELSE LET h == MulD((a + a) % m, b \div 2, m) IN IF b % 2 = 1 THEN (h + a) % m ELSE h
-Mul(a, b, m) == MulD(a % m, b % m, m)
-RECURSIVE PowD(_, _, _)
-PowD(a, e, m) == IF e = 0 THEN 1 % m
-                 ELSE LET s == PowD(Mul(a, a, m), e \div 2, m) IN IF e % 2 = 1 THEN Mul(a, s, m) ELSE s
-
-RECURSIVE GcdE(_, _)
-GcdE(a, b) == IF b = 0 THEN a ELSE GcdE(b, a % b)
-IsUnitN(r) == r \in 1..(N - 1) /\ GcdE(r, N) = 1
-UnitsN == {r \in 1..(N - 1) : GcdE(r, N) = 1}
-InvN(a) == CHOOSE y \in 0..(N - 1) : (a * y) % N = 1                  \* N <= 8881: a*y < 2^27
-\* inverse modulo N^2 of a unit c (c^(phi(N^2) - 1), phi(N^2) = N*(P-1)*(Q-1))
-Inv2(c) == PowD(c, N * (P - 1) * (Q - 1) - 1, N2)
-
---------------------------------------------------------------------------
-(* Paillier, textbook *)
-Enc(m, r) == Mul(PowD(1 + N, m % N, N2), PowD(r, N, N2), N2)
-Rep(m) == (1 + (m % N) * N) % N2                                       \* (1+N)^m = 1 + mN
-Noise(r) == PowD(r, N, N2)
-CAdd(c, d) == Mul(c, d, N2)
-CPowI(c, s) == IF s >= 0 THEN PowD(c, s, N2) ELSE PowD(Inv2(c), 0 - s, N2)
-CShift(c, d) == Mul(c, Rep(d), N2)
-CReRand(c, r) == Mul(c, Noise(r), N2)
-\* decryption by the L function: m = L(c^lambda mod N^2) * lambda^-1 mod N, L(u) = (u-1)/N
-RECURSIVE LcmUp(_, _, _)
-LcmUp(a, b, k) == IF (k * a) % b = 0 THEN k * a ELSE LcmUp(a, b, k + 1)
-Lambda == LcmUp(P - 1, Q - 1, 1)
-DecL(c) == LET u == PowD(c, Lambda, N2) IN (((u - 1) \div N) * InvN(Lambda % N)) % N
-\* the nonce: the unique unit r below N whose N-th power is c / (1+N)^m
-IsNonceOf(c, m, r) == IsUnitN(r) /\ Enc(m, r) = c
-InCtGroup(c) == c \in 1..(N2 - 1) /\ GcdE(c, N) = 1
-\* scalar action on plaintext and nonce
-PtScale(m, s) == (m * (s % N)) % N
-NcPowI(r, s) == IF s >= 0 THEN PowD(r, s, N) ELSE PowD(InvN(r), 0 - s, N)
-\* symmetric plaintext range [-N/2, N/2)
-InSym(x) == 0 - N <= 2 * x /\ 2 * x < N
-
---------------------------------------------------------------------------
-(* ElGamal in discrete logarithms modulo G: secret x, public h = x, c = <<r, m + x*r>> *)
-EEnc(x, m, r) == <<r % G, (m + x * r) % G>>
-EAdd(c, d) == <<(c[1] + d[1]) % G, (c[2] + d[2]) % G>>
-EScale(c, s) == <<(c[1] * (s % G)) % G, (c[2] * (s % G)) % G>>
-ENeg(c) == <<(0 - c[1]) % G, (0 - c[2]) % G>>
-EShift(c, d) == <<c[1], (c[2] + d) % G>>
-EReRand(x, c, r) == EAdd(c, EEnc(x, 0, r))
-EDec(x, c) == (c[2] - x * c[1]) % G
 
 --------------------------------------------------------------------------
 VARIABLES reg,     \* register -> ciphertext (Paillier: integer; ElGamal: pair)
